@@ -262,6 +262,8 @@ def run_one(ctx: Any, seed: int, tier: str, replay: Optional[dict] = None) -> di
                 faults["cache_off"] += 1
             if op["buggify"].get("prune_off"):
                 faults["prune_off"] += 1
+            if op["buggify"].get("next_off"):
+                faults["next_off"] += 1
             tdig = sha(inp["text"])[:10]
             bkey = json.dumps(op["buggify"], sort_keys=True)
             if "timeout" in r:
@@ -269,7 +271,7 @@ def run_one(ctx: Any, seed: int, tier: str, replay: Optional[dict] = None) -> di
                 prefix.append("parse:%d:timeout" % i)
                 continue
             evaluations += 1
-            skipped = st.get("cache_hit_skipped", 0) + st.get("options_unpruned", 0)
+            skipped = st.get("cache_hit_skipped", 0) + st.get("options_unpruned", 0) + st.get("next_match_bruteforce", 0)
             if skipped or parsed_before:
                 nontrivial.append("%s|%s|%s|%s" % (tdig, inp["dialect"], bkey, sha(repr(prefix))[:10]))
             if skipped:
